@@ -223,12 +223,30 @@ impl SelectorsParser {
         let mut depth = 0usize;
         let mut quote = None;
         let mut escaped = false;
+        let mut in_comment = false;
+        let mut prev = 0u8;
 
         for &b in selector.as_bytes() {
-            if escaped {
-                escaped = false;
+            if in_comment {
+                // NOTE: quotes and parentheses in a `/* comment */` are not syntax
+                in_comment = !(prev == b'*' && b == b'/');
+                prev = if in_comment { b } else { 0 };
                 continue;
             }
+
+            if escaped {
+                escaped = false;
+                prev = 0;
+                continue;
+            }
+
+            if quote.is_none() && prev == b'/' && b == b'*' {
+                in_comment = true;
+                prev = 0;
+                continue;
+            }
+
+            prev = b;
 
             match (quote, b) {
                 (_, b'\\') => escaped = true,
